@@ -219,7 +219,7 @@ func c03OnDataset(ds string, p *prng, stats map[string]int, failsp *int, loopCas
 					if family == "kirkpatrick" {
 						ex := kirkpatrick.New()
 						ex.SetLogHandler(new(loggers.NullLogger))
-						ex.SetModel(c.m)
+						ex.SetModel(c.forExplorer())
 						ex.SetParameters(parameters.Map{"DecisionVariable": "SedimentProduction", "StartingTemperature": 50.0, "CoolingFactor": 0.99})
 						if r%2 == 1 {
 							ex.Initialise() // a previous run of the same explorer instance
@@ -237,7 +237,7 @@ func c03OnDataset(ds string, p *prng, stats map[string]int, failsp *int, loopCas
 					} else {
 						ex := suppapitnarm.New()
 						ex.SetLogHandler(new(loggers.NullLogger))
-						ex.SetModel(c.m)
+						ex.SetModel(c.forExplorer())
 						ex.SetParameters(parameters.Map{"StartingTemperature": 50.0, "CoolingFactor": 0.99,
 							"InitialReturnToBaseStep": int64(7), "MinimumReturnToBaseRate": int64(2), "ReturnToBaseAdjustmentFactor": 0.9})
 						ex.Initialise()
